@@ -188,6 +188,42 @@ theorem phase1_ok {h : Hist} {m1 : LMap} (hl : loadPhase1 h = .ok m1) :
         · rw [← hl]
         · rw [← hl]
 
+theorem forM_checkRev_ok : ∀ (h : Hist), h.forM checkRev = .ok () → ∀ r ∈ h, checkRev r = .ok ()
+  | [], _ => by simp
+  | a :: rest, hok => by
+    simp only [List.forM, bind, Except.bind] at hok
+    cases ha : checkRev a with
+    | error e => simp [ha] at hok
+    | ok u =>
+      simp only [ha] at hok
+      intro r hr
+      rcases List.mem_cons.mp hr with e | hr'
+      · subst e; exact ha
+      · exact forM_checkRev_ok rest hok r hr'
+
+/-- every revision of a history whose first load phase succeeds passed `Revision.__init__`
+    (no self-loop, no `@`, `-`, `+` in its id) -/
+theorem phase1_checked {h : Hist} {m1 : LMap} (hl : loadPhase1 h = .ok m1) : ∀ r ∈ h, checkRev r = .ok () := by
+  unfold loadPhase1 at hl
+  simp only [bind, Except.bind] at hl
+  cases hf : h.forM checkRev with
+  | error e => simp [hf] at hl
+  | ok u => exact forM_checkRev_ok h hf
+
+theorem checkRev_legal {r : Rev} (h : checkRev r = .ok ()) : ∀ c ∈ r.id.toList, c ∉ illegalChars := by
+  unfold checkRev at h
+  split at h
+  · simp at h
+  · split at h
+    · simp at h
+    · split at h
+      · simp at h
+      · rename_i hany
+        intro c hc hill
+        apply hany
+        simp only [List.any_eq_true, decide_eq_true_eq]
+        exact ⟨c, hc, hill⟩
+
 /-- label keys point to revision ids of the history -/
 theorem mapBranchLabels_vals (ids : List Id) : ∀ (revs : List Rev) (acc out : List (String × Id)),
     (∀ r ∈ revs, r.id ∈ ids) → (∀ e ∈ acc, e.2 ∈ ids) →
